@@ -87,7 +87,10 @@ StateDelAttr(w, e, n, now) ==
 \*  - dotted-name forms other than a plain read are only used where the name resolves to a
 \*    state (a service cannot be assigned or deleted; attributes of Python objects are C01's),
 \*    except assignment / del under a Python variable (must go to the Python object);
+\*  - setting an attribute of a missing entity would be a state.set without value on a missing entity;
 \*  - virtual attributes are only read and tested, never written or deleted.
+\* (Deleting something that does not exist is generated: the state machine must stay as it is; the
+\*  class of the exception is not demanded by the statement - see StateVarsTrace!ResultOk.)
 Specified(w, op) ==
   CASE op.k = "set" -> (op.hasv \/ Has(w.h, op.e)) /\ (op.hasv => op.v.t # "n")
     [] op.k = "assign" -> op.v.t # "n" /\ Resolve(w, op.e) \in {"state", "py"}
@@ -95,8 +98,10 @@ Specified(w, op) ==
     [] op.k = "del" -> Resolve(w, op.e) \in {"state", "py"}
     [] op.k = "capture" -> Resolve(w, op.e) = "state"
     [] op.k = "readattr" -> op.via = "get" \/ Resolve(w, op.e) = "state"
-    [] op.k \in {"assignattr", "delattr"} -> Resolve(w, op.e) = "state" /\ op.n \notin Virtual
-    [] op.k \in {"setattr", "deleteattr"} -> op.n \notin Virtual
+    [] op.k = "assignattr" -> Resolve(w, op.e) = "state" /\ op.n \notin Virtual /\ Has(w.h, op.e)
+    [] op.k = "setattr" -> op.n \notin Virtual /\ Has(w.h, op.e)
+    [] op.k = "delattr" -> Resolve(w, op.e) = "state" /\ op.n \notin Virtual
+    [] op.k = "deleteattr" -> op.n \notin Virtual
     [] op.k = "unbindvar" -> w.py[op.d].b
     [] op.k = "checksnap" -> w.snap # NoSnap
     [] OTHER -> TRUE
